@@ -266,13 +266,33 @@ for _avg in (True, False):
                      [('pad_recorded', 'self.att_in == (p.gain_min - self.effective_gain if p.gain_min > self.effective_gain else 0)')],
              modifies=['self.att_in'], use_at_calls=False)
 
-contract('gnpy.core.elements.Edfa._calc_nf', name='gnpy.core.elements.Edfa._calc_nf[dual stage]', props=['C04'],
+contract('gnpy.core.elements.Edfa._calc_nf', name='gnpy.core.elements.Edfa._calc_nf[dual stage]', props=['C04', 'C10'],
          params={'self': EDFA('dual_stage'), 'avg': const(True)}, spec=SPEC_NF,
          let={'p': 'self.params', 'g1': 'self.params.preamp_gain_flatmax'},
          # Friis: nf = nf_pre(g1) + nf_boost(g - g1) / g1, the preamp at its maximum flat gain
          ensures=[('friis', 'spec_db2lin(result) == spec_db2lin(NFVG(p.preamp_nf_model, p.preamp_gain_min, p.preamp_gain_flatmax, g1)) + '
                             'spec_db2lin(NFVG(p.booster_nf_model, p.booster_gain_min, p.booster_gain_flatmax, self.effective_gain - g1)) / spec_db2lin(g1)'),
                   ('no_pad', 'self.att_in == 0')],
+         modifies=['self.att_in'], use_at_calls=False)
+
+# dual stage whose two stages are described by their own NF polynomials (advanced models): each stage is rated with its OWN fit
+_P4 = lambda: lst(real(), real(), real(), real())
+_EDFA_DS_ADV = EDFA('dual_stage')
+_EDFA_DS_ADV = extend(_EDFA_DS_ADV, params=extend(_EDFA_DS_ADV.fields['params'], preamp_type_def=const('advanced_model'),
+                                                  booster_type_def=const('advanced_model'), preamp_nf_model=const(None),
+                                                  booster_nf_model=const(None), preamp_nf_fit_coeff=_P4(), booster_nf_fit_coeff=_P4()))
+contract('gnpy.core.elements.Edfa._calc_nf', name='gnpy.core.elements.Edfa._calc_nf[dual stage, advanced-model stages]', props=['C04', 'C10'],
+         params={'self': _EDFA_DS_ADV, 'avg': const(True)}, spec=SPEC_ORM + '''
+def POLY(c, gmin, gmax, gt):
+    g = gt + PADG(gmin, gt)
+    dg = gmax - g if gmax > g else 0
+    return (((c[0] * (-dg) + c[1]) * (-dg) + c[2]) * (-dg) + c[3]) + PADG(gmin, gt)
+''',
+         let={'p': 'self.params', 'g1': 'self.params.preamp_gain_flatmax'},
+         ensures=[('friis_with_each_stages_own_polynomial',
+                   # (written as the sum of the two noise factors, the second referred to the input through the first stage's gain)
+                   'result == spec_lin2db(spec_db2lin(POLY(p.preamp_nf_fit_coeff, p.preamp_gain_min, p.preamp_gain_flatmax, g1)) + '
+                   'spec_db2lin(POLY(p.booster_nf_fit_coeff, p.booster_gain_min, p.booster_gain_flatmax, self.effective_gain - g1) - g1))')],
          modifies=['self.att_in'], use_at_calls=False)
 
 contract('gnpy.core.elements.Edfa.noise_profile', props=['C04'],
